@@ -634,8 +634,9 @@ int main(int argc, char** argv) {
     int exitCode = 0;
     uint64_t crashViolations = 0, knownCrashHits = 0;
     std::set<std::string> seenCrashSig;
+    int crashesExamined = 0;
     for (auto& c : R.crashes) {
-        if (crashViolations >= 5) break;   // five are reported; every further crash costs replays in fresh processes
+        if (crashViolations >= 5 || ++crashesExamined > 12) break;   // every crash costs replays in fresh processes (a blocked run: the watchdog's patience each)
         std::string cls = sim::classifyCrash(c.status, c.stderrTail);
         if (cls.empty()) cls = "worker_died";
         Plan p = generatePlan(opt.seed, c.run, opt.property, allowDtorErr, g_allowQcycle);
